@@ -2,9 +2,9 @@
 """Property dispatcher.  Exit 0 / 1 (VIOLATION printed) / 2 (inconclusive)."""
 import os, subprocess, sys
 HERE = os.path.dirname(os.path.abspath(__file__))
-ENGINE_S = {"C01", "C02", "C03", "C04", "C05", "C06", "C07", "C09", "C10", "C13", "C15", "C17", "C18"}
+ENGINE_S = {"C01", "C02", "C03", "C04", "C05", "C06", "C07", "C09", "C10", "C13", "C15", "C18"}
 # properties decided by Kani harnesses, each with a concrete native companion run by the Engine-S driver
-ENGINE_K = {"C08", "C11", "C12", "C16"}
+ENGINE_K = {"C08", "C11", "C12", "C16", "C17"}
 
 
 def main():
